@@ -204,6 +204,9 @@ func (o *Option) MarshalBinary() (data []byte, err error) {
 }
 
 func (o *Option) UnmarshalBinary(data []byte) error {
+	if len(data) < 2 {
+		return errors.New("The []byte is too short to unmarshal a full Option message.")
+	}
 	n := 0
 	o.Type = data[n]
 	n += 1
@@ -246,11 +249,14 @@ func (h *HopByHopHeader) MarshalBinary() (data []byte, err error) {
 }
 
 func (h *HopByHopHeader) UnmarshalBinary(data []byte) error {
+	if len(data) < 2 {
+		return errors.New("The []byte is too short to unmarshal a full HopByHopHeader message.")
+	}
 	n := 0
 	h.NextHeader = data[n]
 	n += 1
 	h.HEL = data[n]
-	if len(data) < 8*int(h.HEL+1) {
+	if len(data) < 8*(int(h.HEL)+1) {
 		return errors.New("The []byte is too short to unmarshal a full HopByHopHeader message.")
 	}
 	n += 1
@@ -298,11 +304,14 @@ func (h *RoutingHeader) MarshalBinary() (data []byte, err error) {
 }
 
 func (h *RoutingHeader) UnmarshalBinary(data []byte) error {
+	if len(data) < 2 {
+		return errors.New("The []byte is too short to unmarshal a full RoutingHeader message.")
+	}
 	n := 0
 	h.NextHeader = data[n]
 	n += 1
 	h.HEL = data[n]
-	if len(data) < 8*int(h.HEL+1) {
+	if len(data) < 8*(int(h.HEL)+1) {
 		return errors.New("The []byte is too short to unmarshal a full RoutingHeader message.")
 	}
 	n += 1
